@@ -183,6 +183,26 @@ func runC32(c *eng.Ctx) {
 			}
 			okLast = len(fromLast) == 1
 			if okLast {
+				// the parsed last-byte position itself: the value that is clamped (the other operand of the join with size-1)
+				var endParsed ssa.Value
+				eng.Walk(fromLast[0].(*ssa.Store).Val, 4, func(v ssa.Value) bool {
+					if phi, isPhi := v.(*ssa.Phi); isPhi && len(phi.Edges) == 2 {
+						for i, e := range phi.Edges {
+							if e == ssa.Value(sizeMinus1[0].(*ssa.BinOp)) {
+								endParsed = phi.Edges[1-i]
+							}
+						}
+					}
+					return true
+				})
+				if endParsed == nil {
+					okLast = false
+				} else {
+					keepLast = eng.PassEdges(pr, eng.Cmp(func(v ssa.Value) bool { return v == endParsed }, isSize, token.LSS))
+					okLast = len(keepLast) >= 1
+				}
+			}
+			if okLast {
 				hit, _ := eng.Search(eng.Entry(pr), eng.Is(fromLast[0]), eng.SearchOpt{Cut: keepLast, Barrier: eng.Is(sizeMinus1[0])})
 				// the other comparisons of parsed values with size (start > size, suffix > size) also produce LSS-pass edges only when written as <; restrict to the branch that leads to the clamp
 				okLast = hit == nil || reachesOnlyVia(pr, fromLast[0], sizeMinus1[0], keepLast)
@@ -208,9 +228,9 @@ func runC32(c *eng.Ctx) {
 			}
 			return false
 		}
-		okBad := refused(eng.PassEdges(pr, eng.Cmp(parsed, isSize, token.GTR))) &&
+		okBad := refused(eng.PassEdges(pr, eng.Cmp(parsed, isSize, token.GEQ))) &&
 			refused(eng.PassEdges(pr, eng.Cmp(func(v ssa.Value) bool { return eng.MentionsField(v, "httpRange.start") }, parsed, token.GTR)))
-		c.Ob("CLAMP-range", eng.FuncName(pr)+" refusals", okBad, pr.Pos(), "a start beyond the size and a start above the last position are errors (416), not ranges")
+		c.Ob("CLAMP-range", eng.FuncName(pr)+" refusals", okBad, pr.Pos(), "a start at or beyond the size and a start above the last position are errors (416), not ranges")
 		c.Expect("CLAMP-range", 3)
 	}
 
